@@ -272,6 +272,9 @@ func runC02(c *Ctx) {
 	}
 	roots = append(roots, c.MustFunc("codec-state-free", objShort+".(*Signature).Decode"), c.MustFunc("codec-state-free", objShort+".(*Signature).Encode"))
 	StateFree(c, "codec-state-free", roots, poolAllow)
+	// the identity line's zone: the sign applies to hours and minutes (see checkZoneSign)
+	checkZoneSign(c, "zone-sign-whole-offset", objShort+".(*Signature).decodeTimeAndTimeZone")
+	c.Floor("zone-sign-whole-offset", 1)
 }
 
 // poolAllow: reviewed package-level state that codecs may use. All are sync.Pool free lists whose objects are reset
